@@ -23,7 +23,9 @@ TAGS = [None, None, 'c0', 'A', 'conn_12', '7', '_']
 QUEUES = [None, 'Default Queue', 'Display Queue', 'mesa egl display queue', '', 'q{x', 'a b  c', '[1.0]  -> x@1.y(', 'q', '<c>']
 PIECES = [', ', ',', ' ', '(', ')', '[', ']', '{', '}', '<', '>', ' -> ', '  -> ', '@', '#', '.', 'nil', 'array', 'array[4]', 'fd 5', 'new id ',
           'new id wl_a@3', 'wl_a@3', 'wl_a#3.f(', '[1.000]', '[ 12.345] ', '[1.0]  -> a@1.b(', '} a#1.b(', '-1', '1.5', '0', 'abc', 'é', '日本', '\t', "'",
-          '%', '=', '!', '~', '1e5', 'x, y', '", "', ':', ';', ')', '))', '(nil)', '[unknown]']
+          '%', '=', '!', '~', '1e5', 'x, y', '", "', ':', ';', ')', '))', '(nil)', '[unknown]',
+          # words libwayland itself prints around messages
+          'discarded ', 'the jury discarded the evidence', ' discarded', 'error: ', 'unknown', 'Default Queue', ' queue ', 'destroyed object', 'zombie']
 
 
 def gen_str(rnd):
@@ -151,6 +153,60 @@ def history_independence(res, rnd):
             res.nontriv(('hist', tuple(lines[:3])))
 
 
+class _RecSink:
+    def __init__(self):
+        self.got = []
+
+    def open_connection(self, time, connection_id, is_server):
+        pass
+
+    def close_connection(self, time, connection_id):
+        pass
+
+    def message(self, connection_id, m):
+        self.got.append([connection_id, m.obj.id, m.name, len(m.args), [a.value for a in m.args if hasattr(a, 'value') and isinstance(a.value, str)]])
+
+
+def reader_leg(res, rnd, texts):
+    """the same lines through the tool's own reading loop (parse.into_sink on a text stream): every message line arrives at the
+    sink exactly as parse.message decodes it on its own - whatever its length (titles of several thousand characters, data: URLs
+    of tens of thousands) and whatever surrounds it"""
+    import io
+    from backends.libwayland_debug_output import parse
+    from core.output import Output
+    import core.output.stream as stream
+    from core.wl import message as wlmsg
+    n = 40 if res.tier == 'quick' else 1200
+    for _ in range(n):
+        lines = [rnd.choice(texts) for _k in range(rnd.choice([3, 10, 30]))]
+        for big in rnd.sample([4070, 4100, 8200, 65500, 70000], rnd.choice([0, 1, 2])):
+            lines.insert(rnd.randrange(len(lines) + 1), '[1234.567]  -> xdg_toplevel@7.set_title("%s")' % ('t' * big))
+        lines = [l for l in lines if '\n' not in l and '\r' not in l and not any(ch in l for ch in '\x0b\x0c\x1c\x1d\x1e\x85\u2028\u2029')]
+        want = []
+        for l in lines:
+            wlmsg.Message.base_time = 0.0
+            try:
+                c, m = parse.message(l.strip())
+                want.append([c, m.obj.id, m.name, len(m.args), [a.value for a in m.args if hasattr(a, 'value') and isinstance(a.value, str)]])
+            except Exception:
+                pass
+        sink = _RecSink()
+        wlmsg.Message.base_time = 0.0
+        try:
+            parse.into_sink(io.StringIO('\n'.join(lines) + rnd.choice(['\n', ''])), Output(False, True, stream.Null(), stream.Null()), sink)
+            got = sink.got
+        except Exception as e:
+            got = repr(e)
+        res.evaluations += 1
+        if got != want:
+            k = next((i for i, (a, b) in enumerate(zip(got, want)) if a != b), min(len(got), len(want))) if isinstance(got, list) else 0
+            res.disagree('the reading loop does not hand on the messages parse.message decodes from the same lines', dict(lines=[l[:300] + ('...(%d chars)' % len(l) if len(l) > 300 else '') for l in lines]),
+                         [len(want), str(want[k:k + 1])[:300]], [len(got) if isinstance(got, list) else got, str(got[k:k + 1])[:300] if isinstance(got, list) else ''],
+                         sig={'entry': 'reader', 'longest_line': max(len(l) for l in lines)}, theorem='C01 (decoder reached through Parser.parse_all)')
+        else:
+            res.nontriv(('reader', tuple(l[:40] for l in lines[:3])))
+
+
 def run(res):
     rnd = random.Random(res.seed * 31337 + 1)
     n = 6000 if res.tier == 'quick' else 300000
@@ -212,6 +268,7 @@ def run(res):
                 res.count('mutated:' + m[0])
     sample_logs(res)
     history_independence(res, rnd)
+    reader_leg(res, rnd, texts)
     res.rule = ('wire messages over all argument kinds in all positions (0..20 args, 32-bit boundary integers, 24.8 fixed values incl. rounding ties, '
                 'strings with commas/brackets/parentheses/braces/embedded message text, queue and connection tags) rendered by the model in old / current / mixed dialects '
                 'and decoded by /repo; plus mutated lines (deletion, duplication, truncation, insertion, prefixes) compared with the Decode model; '
